@@ -349,7 +349,7 @@ def run(chk, args):
             nontrivial = c["n"] >= 3 and c["n"] % 3 == 0
         chk.note_case({k: v for k, v in c.items() if k != "cls"}, nontrivial)
         for key, what in bad:
-            if key not in seen or len(seen) < 4:
+            if key not in seen:
                 small = o if c["k"] != "machine" else [o[0]]
                 chk.fail_input(key, what, dict(case=c, observed=small))
             seen.add(key)
